@@ -376,6 +376,15 @@ func (e *errEngine) callClasses(c *ssa.Call, idx int, fs []Fact) errSet {
 		return out
 	}
 	for _, f := range callees {
+		// a constructor helper that wraps the sentinel it is handed
+		// (`notNumericErr(base error, op string) error`): the class is that of
+		// the sentinel at this call
+		if k := e.ctorWrappedParam(f); k >= 0 && k < len(c.Call.Args) && idx == 0 && len(callees) == 1 {
+			for s := range e.classify(c.Call.Args[k], fs, map[ssa.Value]bool{}) {
+				out[s] = true
+			}
+			continue
+		}
 		if inModule(f) && f.Blocks != nil {
 			if rs := e.ret[f]; rs != nil && idx < len(rs) {
 				for s := range rs[idx] {
@@ -388,6 +397,35 @@ func (e *errEngine) callClasses(c *ssa.Call, idx int, fs []Fact) errSet {
 		out[e.nilSrc] = true
 	}
 	return out
+}
+
+// ctorWrappedParam: f is a one-block module function returning
+// fmt.Errorf("%w…", p, …) with p one of its parameters; the index of p, else -1.
+func (e *errEngine) ctorWrappedParam(f *ssa.Function) int {
+	if !e.p.isErrCtor(f) {
+		return -1
+	}
+	ret := f.Blocks[0].Instrs[len(f.Blocks[0].Instrs)-1].(*ssa.Return)
+	inner, ok := stripConv(ret.Results[0]).(*ssa.Call)
+	if !ok || len(inner.Call.Args) < 2 {
+		return -1
+	}
+	args := errorfArgs(inner.Call.Args[1])
+	pre := formatPrefix(inner.Call.Args[0])
+	if pre == "" {
+		return -1
+	}
+	verbs := formatVerbs(pre)
+	for i, a := range args {
+		if a == nil || i >= len(verbs) || verbs[i] != 'w' {
+			continue
+		}
+		if q, ok := stripConv(a).(*ssa.Parameter); ok && q.Parent() == f {
+			return paramIndex(q)
+		}
+		return -1
+	}
+	return -1
 }
 
 func (e *errEngine) firstSentinelGlobal(c *ssa.Call) *ssa.Global {
